@@ -377,6 +377,19 @@ func (c *Ctx) builtinSemantics(fr *Frame, st *State, callee *ssa.Function, args 
 		if c.mode == BV {
 			return c.mkVal(f64, fmt.Sprintf("((_ to_fp 11 53) %s)", args[0].S)), true
 		}
+	case "strings.Repeat":
+		if len(args) == 2 && args[0].S != "" && args[1].S != "" {
+			// the result has len(s)*count bytes (count >= 0, otherwise strings.Repeat panics)
+			v := c.havocVal(types.Typ[types.String], "repeat")
+			cnt := c.toIdx(args[1].S, args[1].T)
+			if c.mode == BV {
+				c.assume(st.reach, fmt.Sprintf("(= (str_len %s) (bvmul (str_len %s) %s))", v.S, args[0].S, cnt))
+			} else {
+				c.assume(st.reach, fmt.Sprintf("(= (str_len %s) (* (str_len %s) %s))", v.S, args[0].S, cnt))
+			}
+			c.trusted["strings.Repeat: result length is len(s)*count (content abstract)"] = true
+			return v, true
+		}
 	case "math.Mod":
 		c.declUF("math_mod", []string{"Float64", "Float64"}, "Float64")
 		c.trusted["math.Mod: uninterpreted; assumed |r|<|y| and sign(r)=sign(x) or r=±0, NaN iff x inf/NaN or y 0/NaN"] = true
